@@ -8,8 +8,13 @@ Specification: specs/extdata/AtomicSave.tla (+MC, +Trace).  Binding (no edit of 
   file-system effects, then every effect is made to fail (``-e inject=...:error=``) or the process
   is killed at it (``:signal=SIGKILL``);
 * Python layer: proxies in the module globals of ``onnx_ir.external_data`` log the same effects
-  (plus callbacks, mid-tensor chunk writes, release/invalidate of tensors backed by the
-  destination) and raise / ``os._exit`` at each of them, in forked children;
+  (plus callbacks, mid-tensor chunk writes, release/invalidate of EVERY external tensor -- those
+  backed by the destination and the bystanders backed by another file) and raise / ``os._exit``
+  at each of them, in forked children;
+* bystanders (``cfg.other``): ExternalTensors saved in the same call whose file is elsewhere -- same
+  file name in a sibling directory (identical ``location``), another name in the destination
+  directory, same name in a sub-directory with a relative ``base_dir``; the tensors backed by the
+  destination are also spelled through ``<dir>/sub/..`` and through a hard link;
 * EVERY run (fault free, failed, killed) is a trace validated by TLC against AtomicSaveTrace.tla
   (order of effects incl. the finally path, and the end state observed on disk), and the formulas
   of the property are evaluated by TLC on the observed end state.  Only the latter give a
@@ -56,9 +61,9 @@ PER_TENSOR = {"Callback", "WriteChunk", "OpenSrc", "ReleaseMap", "Invalidate", "
 # ----------------------------------------------------------------------------------------------
 # configurations
 # ----------------------------------------------------------------------------------------------
-def _cfg(nt, nc, dest="absent", backed=(), par=False, shard=False, pre=(), np=(), lim=None):
+def _cfg(nt, nc, dest="absent", backed=(), par=False, shard=False, pre=(), np=(), lim=None, other=(), ov=None, bv=None):
     return F.norm_cfg({"nt": nt, "nc": nc, "dest": dest, "backed": list(backed), "par": par, "shard": shard,
-                       "pre": list(pre), "np": list(np), "lim": lim})
+                       "pre": list(pre), "np": list(np), "lim": lim, "other": list(other), "ov": ov, "bv": bv})
 
 
 def all_model_configs(max_t=3, max_c=2) -> list:
@@ -70,19 +75,60 @@ def all_model_configs(max_t=3, max_c=2) -> list:
                 for backed in ((), (1,)):
                     if backed and dest == "absent":
                         continue
-                    for par in (False, True):
-                        if par and nt < 2:
+                    for other in ((), (nt,)):           # bystander: none, or the last tensor
+                        if set(other) & set(backed):
                             continue
-                        out.append(_cfg(nt, nc, dest, backed, par))
+                        for par in (False, True):
+                            if par and nt < 2:
+                                continue
+                            out.append(_cfg(nt, nc, dest, backed, par, other=other))
     for nt in range(1, max_t + 1):                      # sharded requests, as AtomicSaveMC!Sharded
         for nc in range(1, max_c + 1):
             for dest, backed in (("absent", ()), ("file", ()), ("file", (1,))):
-                for k in range(1, nt + 1):
-                    base = _cfg(nt, nc, dest, backed, shard=True, lim=k * nc)
-                    ns = F.nshards(base) if F.numbered(base) else 0
-                    for mask in range(1 << ns):
-                        pre = [i + 1 for i in range(ns) if mask >> i & 1]
-                        out.append(_cfg(nt, nc, dest, backed, shard=True, lim=k * nc, pre=pre))
+                for other in ((), (nt,)):
+                    if set(other) & set(backed):
+                        continue
+                    for k in range(1, nt + 1):
+                        if k * nc > nt * nc:
+                            continue
+                        base = _cfg(nt, nc, dest, backed, shard=True, lim=k * nc, other=other)
+                        ns = F.nshards(base) if F.numbered(base) else 0
+                        for mask in range(1 << ns):
+                            pre = [i + 1 for i in range(ns) if mask >> i & 1]
+                            out.append(_cfg(nt, nc, dest, backed, shard=True, lim=k * nc, pre=pre, other=other))
+    return out
+
+
+def bystander_configs(tier: str) -> list:
+    """Every placement of the bystanders' file for the configurations in which a bystander FOLLOWS (and, beyond
+    the MC bound, precedes) a tensor backed by the destination; plus the other spellings of a backed tensor's path."""
+    out = []
+    for ov in F.OTHER_VARIANTS:
+        out += [
+            _cfg(2, 1, "file", (1,), other=(2,), ov=ov),
+            _cfg(2, 2, "symlink", (1,), other=(2,), ov=ov),
+            _cfg(3, 1, "file", (1,), other=(3,), par=True, ov=ov),
+            _cfg(3, 2, "file", (2,), other=(1, 3), ov=ov),                       # beyond the MC bound
+            _cfg(2, 1, "file", (1,), other=(2,), shard=True, lim=2, ov=ov),      # one shard = plain name, in place
+            _cfg(1, 1, "absent", (), other=(1,), ov=ov),
+        ]
+        if tier == "thorough":
+            out += [
+                _cfg(3, 2, "symlink", (1, 2), other=(3,), par=True, ov=ov),
+                _cfg(3, 1, "file", (3,), other=(1, 2), ov=ov),
+                _cfg(3, 1, "file", (1,), other=(2, 3), shard=True, lim=2, ov=ov),
+                _cfg(2, 2, "file", (), other=(1, 2), ov=ov),
+            ]
+    for bv in ("rel", "hard"):
+        out += [
+            _cfg(2, 2, "file", (1,), bv=bv),
+            _cfg(3, 1, "file", (1, 3), other=(2,), ov="a", bv=bv),
+            _cfg(2, 1, "file", (1, 2), shard=True, lim=2, bv=bv),
+        ]
+        if tier == "thorough":
+            out += [_cfg(3, 2, "file", (1, 2), other=(3,), par=True, ov="c", bv=bv),
+                    _cfg(3, 1, "file", (1,), shard=True, lim=2, bv=bv)]
+    out.append(_cfg(2, 1, "symlink", (1,), other=(2,), ov="a", bv="rel"))
     return out
 
 
@@ -121,7 +167,12 @@ def sys_configs(tier: str) -> list:
         _cfg(3, 2, "symlink", (1,), par=True),
         _cfg(3, 1, shard=True, pre=(1, 3)),
     ]
-    pool = quick + [c for c in all_model_configs() if c["nt"] <= 2] if tier == "quick" else quick + extra + all_model_configs() + beyond_bound_configs()
+    by = bystander_configs(tier)
+    if tier == "quick":
+        mc = [c for c in all_model_configs() if c["nt"] <= 2]
+        pool = quick + by + mc
+    else:
+        pool = quick + by + extra + all_model_configs() + beyond_bound_configs()
     seen, out = set(), []
     for c in pool:
         k = F.cfg_key(c)
@@ -136,6 +187,7 @@ def py_configs(tier: str) -> list:
     extra = [_cfg(3, 1, "file", (1, 3)), _cfg(3, 2, "symlink", (2,), par=True), _cfg(3, 2, "file", (1, 2, 3)),
              _cfg(2, 1, "file", (1, 2), shard=True, lim=2), _cfg(3, 2, "file", (1, 2, 3), shard=True, lim=3),
              _cfg(3, 1, "file", (1, 2, 3), shard=True, lim=2, pre=(2,))]
+    extra += bystander_configs(tier)
     if tier == "thorough":
         seen = {F.cfg_key(c) for c in cfgs + extra}
         extra += [c for c in beyond_bound_configs() if F.cfg_key(c) not in seen]
@@ -146,7 +198,7 @@ def py_configs(tier: str) -> list:
 # run -> trace record of AtomicSaveTrace
 # ----------------------------------------------------------------------------------------------
 def spec_cfg(c: dict) -> dict:
-    return {k: c[k] for k in ("nt", "nc", "dest", "backed", "par", "shard", "pre", "lim")}
+    return {k: c[k] for k in ("nt", "nc", "dest", "backed", "other", "par", "shard", "pre", "lim")}
 
 
 def to_trace(run: dict):
@@ -190,7 +242,7 @@ def to_trace(run: dict):
     unusable = sorted(int(t) for t, v in tens.items() if v["valid"] and v["readable"] is not True)
     end = {
         "files": obs["files"], "modes": obs["modes"], "link": obs["link"], "tdir": obs["tdir"],
-        "tfile": obs["tfile"], "out": out, "invalid": invalid, "unusable": unusable,
+        "tfile": obs["tfile"], "out": out, "invalid": invalid, "unusable": unusable, "ofile": obs["ofile"],
         "prodFail": bool(prod), "cleanupFail": any(e["a"] in ("RmTmpFile", "RmTmpDir") for e in fails),
     }
     return {"cfg": spec_cfg(c), "vis": vis, "ev": [F.spec_event(e) for e in events], "end": end, "died": died}, None
@@ -209,8 +261,12 @@ def cfg_kind(c: dict) -> str:
         one = not F.numbered(c)
         exists = (c["dest"] != "absent") if one else bool(c["pre"])
         return (f"shard{'1' if one else 'N'}{'-plainfile' if c['dest'] != 'absent' else ''}"
-                f"{'-backed' if c['backed'] else ''}{'-pre' if exists else ''}")
-    return f"{c['dest']}{'-backed' if c['backed'] else ''}{'-par' if c['par'] else ''}"
+                f"{'-backed' if c['backed'] else ''}{_spelling(c)}{'-other' if c['other'] else ''}{'-pre' if exists else ''}")
+    return f"{c['dest']}{'-backed' if c['backed'] else ''}{_spelling(c)}{'-other' if c['other'] else ''}{'-par' if c['par'] else ''}"
+
+
+def _spelling(c: dict) -> str:
+    return f"({c['bv']})" if c.get("bv", "plain") != "plain" else ""
 
 
 # ----------------------------------------------------------------------------------------------
@@ -287,7 +343,8 @@ def model_check(ctx) -> dict:
     for rec in r1.records():
         nterm += 1
         c = rec["cfg"]
-        ck = F.cfg_key(_cfg(c["nt"], c["nc"], c["dest"], c["backed"], c["par"], c["shard"], c["pre"], lim=c["lim"]))
+        ck = F.cfg_key(_cfg(c["nt"], c["nc"], c["dest"], c["backed"], c["par"], c["shard"], c["pre"], lim=c["lim"],
+                            other=c["other"]), spec_only=True)
         if rec["obs"]["out"] == "crashed":
             pos = ("crash-after", rec["last"]["a"], rec["last"]["t"] if rec["last"]["a"] in PER_TENSOR else 0,
                    rec["last"]["j"] if rec["last"]["a"] in PER_TENSOR else 0, rec["faults"])
@@ -312,13 +369,14 @@ def model_check(ctx) -> dict:
     ctx.extra["model_terminal_states"] = nterm
     ctx.extra["model_fault_positions"] = len(allowed)
     ctx.extra["constants"] = {"MaxT": 3, "MaxC": 2, "MaxFaults": [1, 2], "configurations": len(all_model_configs()),
-                              "sharded_limits": "1..nt tensors' worth of bytes (incl. one shard = plain name)"}
+                              "sharded_limits": "1..nt tensors' worth of bytes (incl. one shard = plain name)",
+                              "bystanders": "other in {{}, {nt}}"}
     return allowed
 
 
 def validate(ctx, traces: list, tag: str) -> dict:
     """Feed traces to AtomicSaveTrace; returns {tid: {"acc": bool, "at": l, "viol": [...], "dev": [...]}}."""
-    res = {i + 1: {"acc": False, "at": 1, "viol": [], "dev": []} for i in range(len(traces))}
+    res = {i + 1: {"acc": False, "at": 1, "viol": [], "dev": [], "byst": []} for i in range(len(traces))}
     if not traces:
         return res
     path = os.path.join(ctx.scratch, f"traces-{tag}.json")
@@ -339,6 +397,8 @@ def validate(ctx, traces: list, tag: str) -> dict:
             res[tid]["viol"] = list(rec[2])
         elif kind == "dev":
             res[tid]["dev"] = list(rec[2])
+        elif kind == "byst":
+            res[tid]["byst"] = sorted(rec[2])
     return res
 
 
@@ -397,6 +457,14 @@ def judge(ctx, runs: list, tag: str, allowed: dict | None = None) -> None:
             ctx.extra["fault_sequence_runs"] = ctx.extra.get("fault_sequence_runs", 0) + 1
         lay = ctx.extra.setdefault("runs_by_layer", {})
         lay[run["layer"]] = lay.get(run["layer"], 0) + 1
+        if c["other"]:
+            by = ctx.extra.setdefault("bystander_runs", {})          # runs with a tensor backed by another file, per placement
+            by[c["ov"]] = by.get(c["ov"], 0) + 1
+            seen_t = [t for t in c["other"] if str(t) in (run.get("tensors") or (run.get("res") or {}).get("tensors") or {})]
+            ctx.extra["bystander_tensors_observed_after_save"] = ctx.extra.get("bystander_tensors_observed_after_save", 0) + len(seen_t)
+        if c.get("bv", "plain") != "plain":
+            sp = ctx.extra.setdefault("backed_spelling_runs", {})
+            sp[c["bv"]] = sp.get(c["bv"], 0) + 1
         if v["acc"]:
             ctx.validated += 1
         else:
@@ -421,7 +489,16 @@ def judge(ctx, runs: list, tag: str, allowed: dict | None = None) -> None:
         if v["viol"]:
             for name in v["viol"]:
                 sig = f"C08:{name}:{cfg_kind(c)}:{kind}@{a}"
-                ctx.violation(sig, _detail(run, tr, [name]))
+                det = _detail(run, tr, [name])
+                if name == "InvalidateOnlyIfReplaced" and v["byst"]:
+                    # TLC found tensors backed by ANOTHER file among the invalid / unreadable ones
+                    how = "invalidated" if set(v["byst"]) & set(tr["end"]["invalid"]) else "unreadable"
+                    sig = f"C08:{name}:{cfg_kind(c)}:bystander-{how}:{c['ov']}"
+                    det["bystanders"] = v["byst"]
+                    det["message"] += (f"; tensor(s) {v['byst']} are backed by another file ({F.other_location(c)} "
+                                       f"in {'a sibling directory' if c['ov'] == 'a' else 'the destination directory' if c['ov'] == 'b' else 'a sub-directory'}"
+                                       f", {tr['end']['ofile']}) which the save did not replace")
+                ctx.violation(sig, det)
         # observations outside the statement, kept as numbers
         if tr["end"]["out"] == "raised" and not tr["end"]["prodFail"]:
             ctx.extra["raised_after_replace"] = ctx.extra.get("raised_after_replace", 0) + 1
@@ -437,11 +514,11 @@ def judge(ctx, runs: list, tag: str, allowed: dict | None = None) -> None:
 
 def _exercise(ctx, run: dict, tr: dict, allowed: dict) -> None:
     """Mark the model fault position this run exercised (serial 1-fault positions of the MC configs)."""
-    ck = F.cfg_key(dict(run["cfg"], np=[]))
+    ck = F.cfg_key(run["cfg"], spec_only=True)
     ev = tr["ev"]
     nf = sum(1 for e in ev if e["r"] == "fail" or e["a"] == "CfrFallback")
     pos = None
-    backed = run["cfg"]["backed"]
+    backed = F.ext_tensors(run["cfg"])   # OpenSrc is logged for every ExternalTensor, whatever file backs it
 
     def key_of(b):
         t, j = (b["t"], b["j"]) if b["a"] in PER_TENSOR else (0, 0)
